@@ -144,10 +144,26 @@ def oracle(case, out):
     return None
 
 
+def single_line_leading_space(tree):
+    """D30 class: some pattern has no line break in its text and its first element is text starting with a space"""
+    def walk(x):
+        if isinstance(x, list):
+            if x and x[0] == b'pat':
+                els = x[1:]
+                if els and sexp.tag(els[0]) == 't' and els[0][1][:1] == b' ' and not any(sexp.tag(e) == 't' and b'\n' in e[1] for e in els):
+                    return True
+            return any(walk(y) for y in x)
+        return False
+    return walk(tree)
+
+
 def classify(case, why, out=''):
+    try:
+        if single_line_leading_space(sexp.loads(out)[1]):
+            return 'D30'
+    except Exception:
+        pass
     # D21: lone CR as the only non-space content of the last pattern line -> the parser leaves an EMPTY text element
-    if '(t #)' in out:
-        return 'D21'
     # D7: '#', '##' or '###' as the last line without EOL parses to a comment with ZERO lines, which serialises to nothing
     text = sexp.loads(case)[2]
     last = text.split(b'\n')[-1]
